@@ -1,15 +1,382 @@
 /-
-C10 — bootloader protocols (work in progress: agreement theorems first).
+C10 — bootloader protocols: data arrives intact, results mirror the device, faults surface.
+
+Model  : Model/Mboot.lean — host (`MbootSerialProtocol`, `MbootBulkProtocol`, `CmdPacket`/`parse_cmd_response`,
+         `McuBoot._process_cmd/_read_data/_send_data/_split_data/_get_max_packet_size` and the public operations)
+         and a reference bootloader `Dev`; tied to /repo by harness/props/C10.py (per-operation differential on
+         replayed transcripts, with and without faults).
+Consts : Generated/MbootConsts.lean is regenerated from /repo on every run; section 1 proves that it agrees with the
+         protocol constants (`Spec`) the model and the reference device are written with.
+Lemmas : Proofs/Mboot.lean (codecs, CRC, splitting), Proofs/MbootFault.lean (fault side),
+         Proofs/MbootRefine.lean (symbolic execution of host + live reference device).
+
+*Observable success* (`succeeded`): nothing raised, value not `None`/`False`, `status_code == SUCCESS`.
 -/
 import SpsdkVerif.Model.Mboot
 import SpsdkVerif.Generated.MbootConsts
+import SpsdkVerif.Proofs.Mboot
+import SpsdkVerif.Proofs.MbootFault
+import SpsdkVerif.Proofs.MbootRefine
 
 namespace SpsdkVerif.C10
-open SpsdkVerif SpsdkVerif.Mboot
-namespace Gen
-export SpsdkVerif.Generated.MbootConsts (frameStartByte fpAck)
-end Gen
+open SpsdkVerif SpsdkVerif.Mboot SpsdkVerif.Mboot.Fault
+open SpsdkVerif.Generated.MbootConsts (Fmt Endian)
 
-theorem gen_start_byte_agrees : Generated.MbootConsts.frameStartByte = Spec.startByte := by decide
+/-! ## 1. constants generated from /repo agree with the protocol constants -/
+
+theorem gen_frame_constants_agree :
+    Generated.MbootConsts.frameStartByte = Spec.startByte ∧
+    Generated.MbootConsts.frameNotReady = [0] ∧
+    Generated.MbootConsts.maxPingDummyBytes = Spec.maxPingDummy ∧
+    Generated.MbootConsts.maxUartOpenAttempts = Spec.openAttempts ∧
+    Generated.MbootConsts.fpTypes =
+      [("ACK", Spec.fAck), ("NACK", Spec.fNak), ("ABORT", Spec.fAbort), ("CMD", Spec.fCmd), ("DATA", Spec.fData),
+       ("PING", Spec.fPing), ("PINGR", Spec.fPingR)] := by decide
+
+theorem gen_report_ids_agree :
+    Generated.MbootConsts.reportIds =
+      [("CMD_OUT", Spec.ridCmdOut), ("CMD_IN", Spec.ridCmdIn), ("DATA_OUT", Spec.ridDataOut), ("DATA_IN", Spec.ridDataIn)] := by
+  decide
+
+/-- tag, flags and argument count of the command packet every modelled API method builds -/
+theorem gen_api_packets_agree :
+    Generated.MbootConsts.apiPackets =
+      [("flash_erase_all", Spec.cFlashEraseAll, 0, 1), ("flash_erase_region", Spec.cFlashEraseRegion, 0, 3),
+       ("read_memory", Spec.cReadMemory, 0, 3), ("write_memory", Spec.cWriteMemory, Spec.flagHasDataPhase, 3),
+       ("fill_memory", Spec.cFillMemory, 0, 3), ("get_property", Spec.cGetProperty, 0, 2),
+       ("set_property", Spec.cSetProperty, 0, 2), ("receive_sb_file", Spec.cReceiveSbFile, Spec.flagHasDataPhase, 1),
+       ("execute", Spec.cExecute, 0, 3), ("call", Spec.cCall, 0, 2),
+       ("flash_erase_all_unsecure", Spec.cFlashEraseAllUnsecure, 0, 0), ("configure_memory", Spec.cConfigureMemory, 0, 2),
+       ("reliable_update", Spec.cReliableUpdate, 0, 1)] := by decide
+
+def kindOfClass : Option String → RKind
+  | some "GenericResponse" => .generic
+  | some "GetPropertyResponse" => .getProperty
+  | some "ReadMemoryResponse" => .readMemory
+  | some "FlashReadResourceResponse" => .flashReadResource
+  | some "FlashReadOnceResponse" => .flashReadOnce
+  | some "KeyProvisioningResponse" => .keyProv
+  | some "TrustProvisioningResponse" => .trustProv
+  | _ => .plain
+
+/-- the `known_response` table of `parse_cmd_response` is the model's `kindOf`, for every header tag byte -/
+theorem gen_response_table_agrees :
+    (List.range 256).all (fun t => kindOfClass (Generated.MbootConsts.knownResponses.lookup t) == kindOf t) = true := by
+  decide +kernel
+
+theorem gen_status_codes_agree :
+    Generated.MbootConsts.stSuccess = Spec.stSuccess ∧ Generated.MbootConsts.stFail = Spec.stFail ∧
+    Generated.MbootConsts.stNoResponse = Spec.stNoResponse ∧
+    Generated.MbootConsts.stUnknownProperty = Spec.stUnknownProperty ∧
+    Generated.MbootConsts.stReadOnlyProperty = Spec.stReadOnlyProperty ∧
+    Generated.MbootConsts.stMemoryRangeInvalid = Spec.stMemoryRangeInvalid ∧
+    Generated.MbootConsts.stUnknownCommand = Spec.stUnknownCommand ∧
+    Generated.MbootConsts.stAbortDataPhase = Spec.stAbortDataPhase ∧
+    Generated.MbootConsts.propMaxPacketSize = Spec.propMaxPacketSize ∧
+    Generated.MbootConsts.defaultMaxPacketSize = Spec.defaultMaxPacket ∧
+    Generated.MbootConsts.cmdHeaderSize = 4 := by decide
+
+/-- every struct format of the codec functions: byte order and field widths as the model lays the bytes out -/
+theorem gen_formats_agree :
+    Generated.MbootConsts.fmtSerialCreateFrame = [⟨.little, [1, 1, 2, 2], 1⟩] ∧
+    Generated.MbootConsts.fmtSerialFrameCrc = [⟨.little, [1, 1, 2], 1⟩] ∧
+    Generated.MbootConsts.fmtSerialAck = [⟨.little, [1, 1], 0⟩] ∧
+    Generated.MbootConsts.fmtPingResponse = [⟨.little, [4, 2, 2], 0⟩] ∧
+    Generated.MbootConsts.fmtSerialPing = [⟨.little, [1, 1], 0⟩, ⟨.little, [1, 1], 1⟩] ∧
+    Generated.MbootConsts.fmtHidCreateFrame = [⟨.little, [1, 1, 2], 0⟩] ∧
+    Generated.MbootConsts.fmtHidParseFrame = [⟨.little, [1, 1, 2], 0⟩] ∧
+    Generated.MbootConsts.fmtCmdHeaderToBytes = [⟨.native, [1, 1, 1, 1], 0⟩] ∧
+    Generated.MbootConsts.fmtCmdHeaderFromBytes = [⟨.native, [1, 1, 1, 1], 0⟩] ∧
+    Generated.MbootConsts.fmtCmdPacketToBytes = [⟨.little, [], 4⟩] ∧
+    Generated.MbootConsts.fmtCmdResponseInit = [⟨.little, [4], 0⟩] ∧
+    Generated.MbootConsts.fmtGenericResponseInit = [⟨.little, [4, 4], 0⟩] ∧
+    Generated.MbootConsts.fmtGetPropertyResponseInit = [⟨.little, [], 4⟩] ∧
+    Generated.MbootConsts.fmtReadMemoryResponseInit = [⟨.little, [4, 4], 0⟩] ∧
+    Generated.MbootConsts.fmtNoResponseInit = [⟨.little, [4], 0⟩] := by decide
+
+/-- the serial protocol asks for CRC-16/XMODEM and `CRC_ALGORITHMS` defines it as the model computes it -/
+theorem gen_crc_params_agree :
+    Generated.MbootConsts.serialCrcAlg = "CRC16_XMODEM" ∧ Generated.MbootConsts.crcWidth = 16 ∧
+    Generated.MbootConsts.crcPoly = Spec.crcPoly ∧ Generated.MbootConsts.crcInit = 0 ∧
+    Generated.MbootConsts.crcXorOut = 0 ∧ Generated.MbootConsts.crcReverse = false := by decide
+
+/-- `_clamp_down_memory_id`: `if memory_id > 255 or memory_id == 0: return memory_id … return 0` -/
+theorem gen_clamp_agrees :
+    Generated.MbootConsts.clampDownShape = [("Return", 0), ("Gt", 255), ("Eq", 0)] := by decide
+
+/-! ## 2. codecs -/
+
+/-- `frame_roundtrip`: what `_create_frame` builds, the device decodes — type, payload and what follows -/
+theorem frame_roundtrip (t : Nat) (p rest : Bytes) (ht : t < 256) (hp : p.length < 2 ^ 16) :
+    parseFrame (mkFrame t p ++ rest) = .ok (t, p, rest) :=
+  frame_roundtrip' t p rest ht (by simpa using hp)
+
+/-- the host's own reader returns the payload of a well-formed DATA frame, leaves what follows and acknowledges -/
+theorem host_reads_data_frame (h : Host) (p rest : Bytes) (hp0 : p ≠ []) (hp : p.length < 2 ^ 16)
+    (hrx : h.rxB = mkFrame Spec.fData p ++ rest) :
+    serialRead h = (.ok (.data p), ({ h with rxB := rest }).write ackFrame) := by
+  have hlen : p.length < 65536 := by simpa using hp
+  have e1 : (UInt8.ofNat Spec.fData).toNat = Spec.fData := by decide
+  have hrx' : h.rxB = UInt8.ofNat Spec.startByte :: UInt8.ofNat Spec.fData ::
+      (le 2 p.length ++ (le 2 (frameCrc Spec.fData p) ++ (p ++ rest))) := by
+    rw [hrx]; simp [mkFrame]
+  have hh := readFrameHeader_none h (UInt8.ofNat Spec.fData) _ hrx'
+  have r1 := devRead_append { h with rxB := le 2 p.length ++ (le 2 (frameCrc Spec.fData p) ++ (p ++ rest)) } (le 2 p.length) _
+    (by simp [le]) rfl
+  have r2 := devRead_append { h with rxB := le 2 (frameCrc Spec.fData p) ++ (p ++ rest) } (le 2 (frameCrc Spec.fData p)) _
+    (by simp [le]) rfl
+  have r3 := devRead_append { h with rxB := p ++ rest } p rest hp0 rfl
+  simp only [le_length] at r1 r2
+  have l1 : fromLe (le 2 p.length) = p.length := fromLe_le_of_lt 2 _ (by simpa using hlen)
+  have l2 : fromLe (le 2 (frameCrc Spec.fData p)) = frameCrc Spec.fData p :=
+    fromLe_le_of_lt 2 _ (by simpa [frameCrc] using crc16_lt (crcInput Spec.fData p))
+  have hz : p.length ≠ 0 := fun e => hp0 (List.length_eq_zero_iff.mp e)
+  have c1 : ¬ (Spec.fData = Spec.fAbort) := by decide
+  have c2 : ¬ (Spec.fData = Spec.fCmd) := by decide
+  unfold serialRead
+  simp only [Fault.bind_run, hh, e1, c1, if_false, r1, r2, l1, l2, hz, r3, sendAck, Fault.devWrite_run,
+    ne_eq, not_true_eq_false, c2, Fault.pure_run]
+
+/-- `hid_roundtrip`: what `MbootBulkProtocol._create_frame` builds (possibly padded by the HID layer) the device decodes -/
+theorem hid_roundtrip (rid : Nat) (p pad : Bytes) (hr : rid < 256) (hp : p.length < 2 ^ 16) :
+    parseReport (mkReport rid p ++ pad) = some (rid, p) :=
+  hid_roundtrip' rid p pad hr (by simpa using hp)
+
+/-- the host's `_parse_frame` returns exactly the payload of a data report, whatever padding follows -/
+theorem hid_host_roundtrip (p pad : Bytes) (hp0 : p ≠ []) (hp : p.length < 2 ^ 16) :
+    hidParseFrame (mkReport Spec.ridDataIn p ++ pad) = .ok (.data p) := by
+  have hlen : p.length < 65536 := by simpa using hp
+  have h1 : fromLe (le 2 p.length) = p.length := fromLe_le_of_lt 2 _ (by simpa using hlen)
+  rw [le2_cases] at h1
+  have hz : p.length ≠ 0 := fun e => hp0 (List.length_eq_zero_iff.mp e)
+  simp only [mkReport, le2_cases, List.cons_append, List.nil_append, hidParseFrame, h1, hz, if_false]
+  have c : ¬ (Spec.ridDataIn % 256 = Spec.ridCmdIn) := by decide
+  have c2 : ¬ (p.length + pad.length < p.length) := by omega
+  simp [c, c2]
+
+/-- a report shorter than its length field is refused (fix C10-1), it never yields data -/
+theorem hid_truncated_report_refused (rid : Nat) (p : Bytes) (k : Nat) (hp : p.length < 2 ^ 16) (hk : k < 4 + p.length)
+    (hp0 : p ≠ []) :
+    hidParseFrame ((mkReport rid p).take k) = .error .conn := by
+  have hlen : p.length < 65536 := by simpa using hp
+  have h1 : fromLe (le 2 p.length) = p.length := fromLe_le_of_lt 2 _ (by simpa using hlen)
+  rw [le2_cases] at h1
+  have hz : p.length ≠ 0 := fun e => hp0 (List.length_eq_zero_iff.mp e)
+  simp only [mkReport, le2_cases, List.cons_append, List.nil_append]
+  match k, hk with
+  | 0, _ => rfl
+  | 1, _ => rfl
+  | 2, _ => rfl
+  | 3, _ => rfl
+  | k + 4, hk =>
+    simp only [List.take_succ_cons, hidParseFrame, h1, hz, if_false]
+    have : (p.take k).length < p.length := by simp; omega
+    simp [this]
+    intro hcontra
+    omega
+
+/-- `cmd_roundtrip`: `CmdPacket.to_bytes(padding=False)` succeeds on a well-formed packet and the device decodes it back -/
+theorem cmd_roundtrip (p : CmdPkt) (h : p.WF) : p.toBytes = .ok p.encode ∧ parseCmd p.encode = some p :=
+  ⟨toBytes_ok p h, cmd_roundtrip' p h⟩
+
+/-- `response_roundtrip`: the responses the device builds are parsed by `parse_cmd_response` to the same fields -/
+theorem response_roundtrip (st x : Nat) (vals : List Nat) (h1 : st < 2 ^ 32) (h2 : x < 2 ^ 32)
+    (hv : ∀ v ∈ vals, v < 2 ^ 32) (hn : vals.length < 255) :
+    parseCmdResponse (genericResp st x) = .ok { kind := .generic, tag := Spec.rGeneric, pc := 2, status := st, cmdTag := x } ∧
+    parseCmdResponse (readMemResp st x) = .ok { kind := .readMemory, tag := Spec.rReadMemory, pc := 2, status := st, length := x } ∧
+    parseCmdResponse (getPropResp st vals) =
+      .ok { kind := .getProperty, tag := Spec.rGetProperty, pc := 1 + vals.length, status := st, values := vals } :=
+  ⟨genericResp_parse st x (by simpa using h1) (by simpa using h2),
+   readMemResp_parse st x (by simpa using h1) (by simpa using h2),
+   getPropResp_parse st vals (by simpa using h1) (fun v hv' => by simpa using hv v hv') hn⟩
+
+/-! ## 3. `_split_data`: the chunks are the data, in order, each non-empty and no larger than the packet size -/
+
+theorem split_data_concat (n : Nat) (hn : 0 < n) (data : Bytes) : (split n data).flatten = data :=
+  split_flatten' n hn data
+
+theorem split_data_bounds (n : Nat) (hn : 0 < n) (data : Bytes) :
+    ∀ c ∈ split n data, c.length ≤ n ∧ c ≠ [] :=
+  split_chunks' n hn data
+
+/-! ## 4. CRC-16/XMODEM detects every single corrupted byte -/
+
+/-- two inputs that differ in exactly one byte have different CRC-16 (injectivity of the register update,
+    no 2^16 enumeration needed) -/
+theorem crc16_single_byte (pre suf : Bytes) (x y : UInt8) (h : x ≠ y) :
+    crc16 (pre ++ x :: suf) ≠ crc16 (pre ++ y :: suf) :=
+  crc16_single_byte_ne pre suf x y h
+
+/-- one byte of the type / CRC / payload region of a frame changed ⇒ the decoder reports a CRC error,
+    never a frame (of the same or of another type or payload) -/
+theorem corrupt_frame_rejected (t : Nat) (p rest : Bytes) (t' c' : Nat) (p' : Bytes) (ht : t < 256)
+    (hp : p.length < 2 ^ 16) (hc : Corrupted t p t' c' p') :
+    parseFrame (rawFrame t' p.length c' p' ++ rest) = .error .badCrc := by
+  obtain ⟨h1, h2, h3, h4⟩ := corrupted_facts ht hc
+  have := parseFrame_raw t' c' p' rest h3 (by rw [h2]; simpa using hp) h4
+  rw [h2] at this
+  rw [this, if_neg h1]
+
+/-- … and `MbootSerialProtocol.read()` raises (connection error; abort if the type became ABORT) -/
+theorem corrupt_frame_raises (h : Host) (t : Nat) (p rest : Bytes) (t' c' : Nat) (p' : Bytes) (ht : t < 256)
+    (hp : p.length < 2 ^ 16) (hc : Corrupted t p t' c' p') (hrx : h.rxB = rawFrame t' p.length c' p' ++ rest) :
+    (serialRead h).1 = .error .conn ∨ (serialRead h).1 = .error .abort := by
+  obtain ⟨h1, h2, h3, h4⟩ := corrupted_facts ht hc
+  exact serialRead_rejects h t' c' p' rest h3 (by rw [h2]; simpa using hp) h4 (by rw [h2]; exact hrx) h1
+
+/-! ## 5. faults surface -/
+
+/-- **missing response / stream cut off**: on a link that stays silent no operation that talks to the device
+    reports success (it returns `None`/`False`/a non-SUCCESS status or raises) -/
+theorem no_response_never_succeeds (h : Host) (op : Op) (hs : Starved h) (ht : talks h.cfg op) :
+    ¬ succeeded (runOp op h).1 (runOp op h).2 :=
+  silent_link_never_succeeds h op hs ht
+
+/-- **the link goes silent before or during the data phase of a write**: `_send_data` raises -/
+theorem write_data_phase_silent_link_raises (h : Host) (cs : List Bytes) (hs : Starved h) :
+    ∃ e, (sendData cs h).1 = .error e :=
+  sendData_starved h cs hs
+
+/-- **… of a read**: `_read_data` ends with status NO_RESPONSE (or raises with `cmd_exception`), never success -/
+theorem read_data_phase_silent_link_fails (h : Host) (tag n : Nat) (hs : Starved h) :
+    ¬ succeeded ((readData tag n h).1.map Val.bytes) (readData tag n h).2 :=
+  readData_starved h tag n hs
+
+/-- **status codes are reported as the device sent them** -/
+theorem status_mirrors_response (h h' : Host) (p : CmdPkt) (r : Resp) (hr : processCmd p h = (.ok r, h')) :
+    h'.status = r.status ∧ (h'.cfg.cmdExc = true → r.status = Spec.stSuccess) :=
+  processCmd_ok h h' p r hr
+
+/-- **device error status**: a command whose response carries a non-SUCCESS status returns `False` and shows that status -/
+theorem error_status_surfaces (h h' : Host) (tag : Nat) (ps : List Nat) (r : Resp)
+    (hp : processCmd ⟨tag, 0, ps⟩ h = (.ok r, h')) (hst : r.status ≠ Spec.stSuccess) :
+    simpleCmd tag ps h = (.ok (.bool false), h') ∧ h'.status = r.status :=
+  simpleCmd_error_status h h' tag ps r hp hst
+
+/-- … and success is reported only when a response with status SUCCESS was received -/
+theorem success_needs_success_response (h : Host) (tag : Nat) (ps : List Nat)
+    (hs : succeeded (simpleCmd tag ps h).1 (simpleCmd tag ps h).2) :
+    ∃ r h', processCmd ⟨tag, 0, ps⟩ h = (.ok r, h') ∧ r.status = Spec.stSuccess ∧ h'.status = Spec.stSuccess :=
+  simpleCmd_success h tag ps hs
+
+/-- **partial data never comes with SUCCESS** (`_read_data`, fix C10-2): on ANY device→host stream, data returned
+    while `status_code == SUCCESS` has exactly the announced length -/
+theorem read_data_success_complete (h h' : Host) (tag n : Nat) (d : Bytes)
+    (hr : readData tag n h = (.ok d, h')) (hst : h'.status = Spec.stSuccess) : d.length = n :=
+  readData_success_complete h h' tag n d hr hst
+
+/-- **NAK / ABORT / timeout / damaged ACK in the data phase**: `_send_data` returns `True` only if every packet was
+    written without any error and the final response carried SUCCESS — on ANY device→host stream -/
+theorem send_data_true_only_if_all_acked (h h' : Host) (cs : List Bytes) (hne : ∀ c ∈ cs, c ≠ [])
+    (hr : sendData cs h = (.ok true, h')) :
+    (∃ h1, sendChunks h.eda cs 0 h = (.ok ((cs.map List.length).sum, none), h1)) ∧ h'.status = Spec.stSuccess :=
+  sendData_true h h' cs hne hr
+
+/-- **NAK / ABORT instead of the ACK of a command**: McuBootConnectionError / McuBootDataAbortError is raised -/
+theorem nak_abort_raise (h : Host) (p : CmdPkt) (x : Bytes) (hwf : p.WF) (ho : h.opened = true)
+    (htr : h.cfg.tr = .serial) :
+    ((h.write (mkFrame Spec.fCmd p.encode)).rxB = nakFrame ++ x → (processCmd p h).1 = .error .conn) ∧
+    ((h.write (mkFrame Spec.fCmd p.encode)).rxB = abortFrame ++ x → (processCmd p h).1 = .error .abort) :=
+  processCmd_nak_abort h p x hwf ho htr
+
+/-! ## 6. without faults: host + reference bootloader = the specification
+
+`specOp` (Model/Mboot.lean) is the abstract effect of an operation: written bytes are in the device memory once, in
+order (`splice`), nothing else is touched; read bytes are exactly `mem[a, a+n)`; properties and status codes are the
+device's; an operation the device refuses returns `False`/`None` (or raises `McuBootCommandError(status)` with
+`cmd_exception`) and shows the device's status.  The device refuses data packets larger than its max packet size, so the
+refinement also says that every packet the host sends is no larger than the negotiated size. -/
+
+/-- one operation on the CRC-framed serial link (all data lengths, all packet sizes `0 < mp < 2^16`) -/
+theorem op_refines_serial (h : Host) (d d' : Dev) (op : Op) (res : Except HErr Val) (st : Nat)
+    (htr : h.cfg.tr = .serial) (husb : h.cfg.usb = false)
+    (hs : Synced h d) (hd : d.OK) (hmps : h.mps = some d.maxPacket) (heda : h.eda = false)
+    (hargs : op.argsOK) (hspec : specOp h.cfg.cmdExc d op = some (d', res, st)) :
+    ∃ h', runOp op h = (res, h') ∧ Synced h' d' ∧ h'.status = st ∧ h'.cfg = h.cfg ∧ h'.mps = h.mps ∧ h'.eda = false :=
+  Mboot.op_refines_serial h d d' op res st htr husb hs hd hmps heda hargs hspec
+
+/-- one operation over USB-HID reports (device object not a `UsbDevice`: the un-chunked `read_memory` path) -/
+theorem op_refines_hid (h : Host) (d d' : Dev) (op : Op) (res : Except HErr Val) (st : Nat)
+    (htr : h.cfg.tr = .hid) (husb : h.cfg.usb = false)
+    (hs : Synced h d) (hd : d.OK) (hmps : h.mps = some d.maxPacket) (heda : h.eda = false)
+    (hargs : op.argsOK) (hspec : specOp h.cfg.cmdExc d op = some (d', res, st)) :
+    ∃ h', runOp op h = (res, h') ∧ Synced h' d' ∧ h'.status = st ∧ h'.cfg = h.cfg ∧ h'.mps = h.mps ∧ h'.eda = false :=
+  Mboot.op_refines_hid h d d' op res st htr husb hs hd hmps heda hargs hspec
+
+/-- run a list of operations; result and `status_code` after each one -/
+def runOps : List Op → Host → List (Except HErr Val × Nat) × Host
+  | [], h => ([], h)
+  | op :: ops, h =>
+    let x := runOp op h
+    let y := runOps ops x.2
+    ((x.1, x.2.status) :: y.1, y.2)
+
+/-- the abstract specification of a list of operations on the device -/
+def specOps (ce : Bool) : List Op → Dev → Option (List (Except HErr Val × Nat) × Dev)
+  | [], d => some ([], d)
+  | op :: ops, d =>
+    match specOp ce d op with
+    | none => none
+    | some (d1, r, st) =>
+      match specOps ce ops d1 with
+      | none => none
+      | some (rs, d2) => some ((r, st) :: rs, d2)
+
+/-- `no_fault_refines`: any sequence of (covered) operations, both transports, by induction over the history -/
+theorem no_fault_refines (ops : List Op) (h : Host) (d d' : Dev) (rs : List (Except HErr Val × Nat))
+    (husb : h.cfg.usb = false) (hs : Synced h d) (hd : d.OK) (hmps : h.mps = some d.maxPacket) (heda : h.eda = false)
+    (hargs : ∀ op ∈ ops, op.argsOK) (hspec : specOps h.cfg.cmdExc ops d = some (rs, d')) :
+    ∃ h', runOps ops h = (rs, h') ∧ Synced h' d' := by
+  induction ops generalizing h d rs with
+  | nil =>
+    simp only [specOps, Option.some.injEq, Prod.mk.injEq] at hspec
+    obtain ⟨rfl, rfl⟩ := hspec
+    exact ⟨h, rfl, hs⟩
+  | cons op ops ih =>
+    simp only [specOps] at hspec
+    cases h1 : specOp h.cfg.cmdExc d op with
+    | none => simp [h1] at hspec
+    | some t =>
+      obtain ⟨d1, r, st⟩ := t
+      simp only [h1] at hspec
+      cases h2 : specOps h.cfg.cmdExc ops d1 with
+      | none => simp [h2] at hspec
+      | some u =>
+        obtain ⟨rs2, d2⟩ := u
+        simp only [h2, Option.some.injEq, Prod.mk.injEq] at hspec
+        obtain ⟨rfl, rfl⟩ := hspec
+        have hop : op.argsOK := hargs op (by simp)
+        obtain ⟨ok1, mp1, _⟩ := specOp_OK h.cfg.cmdExc d d1 op r st hd hs.idle hop h1
+        have step : ∃ h', runOp op h = (r, h') ∧ Synced h' d1 ∧ h'.status = st ∧ h'.cfg = h.cfg ∧ h'.mps = h.mps ∧
+            h'.eda = false := by
+          cases htr : h.cfg.tr with
+          | serial => exact Mboot.op_refines_serial h d d1 op r st htr husb hs hd hmps heda hop h1
+          | hid => exact Mboot.op_refines_hid h d d1 op r st htr husb hs hd hmps heda hop h1
+        obtain ⟨h', e1, s1, st1, c1, m1, ed1⟩ := step
+        have := ih h' d1 rs2 (by rw [c1]; exact husb) s1 ok1 (by rw [m1, hmps, mp1]) ed1
+          (fun o ho => hargs o (by simp [ho])) (by rw [c1]; exact h2)
+        obtain ⟨h'', e2, s2⟩ := this
+        refine ⟨h'', ?_, s2⟩
+        simp only [runOps, e1, e2, st1]
+
+/-! ## non-vacuity and sanity examples -/
+
+/-- a concrete device / host pair satisfying every hypothesis of the refinement theorems, and a history on it -/
+def exDev : Dev := { mem := [1, 2, 3, 4, 5, 6, 7, 8, 9, 10], maxPacket := 4, props := [(1, 77)], rwProps := [10] }
+def exHost : Host := { mps := some 4, peer := .live exDev }
+example : Synced exHost exDev := ⟨rfl, rfl, rfl, rfl, rfl⟩
+example : exDev.OK := ⟨by decide, by decide, by decide, rfl, by decide⟩
+example : specOps false [.writeMemory 2 [9, 9, 9, 9, 9] 0, .readMemory 0 10 0 false, .readMemory 8 3 0 false] exDev =
+    some ([(.ok (.bool true), 0), (.ok (.bytes [1, 2, 9, 9, 9, 9, 9, 8, 9, 10]), 0), (.ok .none, 10200)],
+          { exDev with mem := [1, 2, 9, 9, 9, 9, 9, 8, 9, 10], ncmd := 3 }) := by decide
+
+example : crc16 [0x31, 0x32, 0x33, 0x34, 0x35, 0x36, 0x37, 0x38, 0x39] = 0x31C3 := by decide +kernel
+-- the ping response of the bootloader reference manual
+example : pingResponse 0x50010300 0 = [0x5A, 0xA7, 0x00, 0x03, 0x01, 0x50, 0x00, 0x00, 0xFB, 0x40] := by decide +kernel
+example : Corrupted Spec.fData [1, 2, 3] Spec.fData (frameCrc Spec.fData [1, 2, 3]) [1, 7, 3] :=
+  .payload [1] [3] 2 7 rfl (by decide)
+example : Starved { peer := .script [[[]], []] } := ⟨rfl, by simp, by simp [Peer.silent]⟩
+example : (⟨Spec.cWriteMemory, 1, [0x20000000, 512, 0]⟩ : CmdPkt).WF := ⟨by decide, by decide, by decide, by decide⟩
+example : split 4 [1, 2, 3, 4, 5, 6, 7, 8, 9] = [[1, 2, 3, 4], [5, 6, 7, 8], [9]] := by decide
 
 end SpsdkVerif.C10
